@@ -49,35 +49,43 @@ static int cvid(pthread_cond_t* c) {
 static void jitter(void) {
     unsigned r;
     if (!perturb) return;
-    if (!rs) rs = seed * 2654435761u + (unsigned)me() * 40503u + 1;
+    if (!rs) rs = seed * 2654435761u + (unsigned)((size_t)&rs >> 6) * 40503u + 1;
     rs = rs * 1103515245u + 12345u; r = (rs >> 16) & 0xFF;
-    if (r < 90) sched_yield(); else if (r < 130) usleep(r % 7 * 40);
+    if (r < 70) sched_yield(); else if (r < 140) usleep(r % 9 * 60);
 }
-static void ev(const char* op, int cv, const char* extra) {
+/* everything the log line needs (thread number, condition variable number) is computed under the log lock */
+static void ev_locked(const char* op, pthread_cond_t* c, const char* extra) {
+    if (!tr) return;
+    fprintf(tr, "{\"t\":%d,\"op\":\"%s\",\"cv\":%d,\"x\":\"%s\"}\n", me(), op, c ? cvid(c) : -1, extra ? extra : "");
+    fflush(tr);
+}
+static void ev(const char* op, pthread_cond_t* c, const char* extra) {
     if (!tr) return;
     __real_pthread_mutex_lock(&lg);
-    fprintf(tr, "{\"t\":%d,\"op\":\"%s\",\"cv\":%d,\"x\":\"%s\"}\n", me(), op, cv, extra ? extra : "");
-    fflush(tr);
+    ev_locked(op, c, extra);
     __real_pthread_mutex_unlock(&lg);
 }
-int __wrap_pthread_mutex_lock(pthread_mutex_t* m) { int r; init(); jitter(); r = __real_pthread_mutex_lock(m); ev("lock", -1, NULL); return r; }
-int __wrap_pthread_mutex_unlock(pthread_mutex_t* m) { init(); ev("unlock", -1, NULL); return __real_pthread_mutex_unlock(m); }
+int __wrap_pthread_mutex_lock(pthread_mutex_t* m) { int r; init(); jitter(); r = __real_pthread_mutex_lock(m); ev("lock", NULL, NULL); return r; }
+int __wrap_pthread_mutex_unlock(pthread_mutex_t* m) { int r; init(); ev("unlock", NULL, NULL); r = __real_pthread_mutex_unlock(m); jitter(); return r; }
 int __wrap_pthread_cond_wait(pthread_cond_t* c, pthread_mutex_t* m) {
-    int r, id; init(); id = cvid(c); ev("wait", id, NULL); r = __real_pthread_cond_wait(c, m); ev("woke", id, NULL); return r; }
-int __wrap_pthread_cond_signal(pthread_cond_t* c) { init(); ev("signal", cvid(c), NULL); return __real_pthread_cond_signal(c); }
-int __wrap_pthread_cond_broadcast(pthread_cond_t* c) { init(); ev("broadcast", cvid(c), NULL); return __real_pthread_cond_broadcast(c); }
+    int r; init(); ev("wait", c, NULL);
+    jitter();           /* still holding the mutex: whatever was decided under it must stay true until the wait begins */
+    r = __real_pthread_cond_wait(c, m); ev("woke", c, NULL); return r; }
+int __wrap_pthread_cond_signal(pthread_cond_t* c) { init(); ev("signal", c, NULL); return __real_pthread_cond_signal(c); }
+int __wrap_pthread_cond_broadcast(pthread_cond_t* c) { init(); ev("broadcast", c, NULL); return __real_pthread_cond_broadcast(c); }
 int __wrap_pthread_create(pthread_t* t, const pthread_attr_t* a, void* (*f)(void*), void* arg) {
     int r; init();
+    /* the new thread cannot log anything before its number is registered and the create event is written */
     __real_pthread_mutex_lock(&lg);
     r = __real_pthread_create(t, a, f, arg);
     if (r == 0 && ntids < 80) tids[ntids++] = *t;
+    ev_locked("create", NULL, NULL);
     __real_pthread_mutex_unlock(&lg);
-    ev("create", -1, NULL);
     return r;
 }
-int __wrap_pthread_join(pthread_t t, void** rv) { int r; init(); r = __real_pthread_join(t, rv); ev("join", -1, NULL); return r; }
+int __wrap_pthread_join(pthread_t t, void** rv) { int r; init(); r = __real_pthread_join(t, rv); ev("join", NULL, NULL); return r; }
 FILE* __wrap_fopen(const char* path, const char* mode) {
     init();
-    if (strchr(mode, 'w')) { jitter(); ev("fopen", -1, path); }
+    if (strchr(mode, 'w')) { jitter(); ev("fopen", NULL, path); }
     return __real_fopen(path, mode);
 }
